@@ -12,7 +12,7 @@ PROPS["C19"] = {
     "level": "exploration",
     "design_ref": "DESIGN.md §3 C19",
     "technique": "runtime law monitors (Eq/Ord/Hash) over an exhaustively paired boundary pool + seeded random values, on the real impls",
-    "text": "All ordered pairs and all triples of a boundary-heavy pool (every numeric kind at its limits, the same number in all kinds, signed zeros, NaN, infinities, big integers beyond i128/f64, texts, blobs, nested records) are checked against the Eq/Ord/Hash laws on the real implementation, plus seeded random nested values, sort and HashMap/BTreeMap consistency monitors. Exhaustive over the pool, sampled beyond it.",
+    "text": "All ordered pairs and all triples of a boundary-heavy pool (every numeric kind at its limits, the same number in all kinds, signed zeros, NaN, infinities, big integers beyond i128/f64, texts, blobs, nested records) are checked against the Eq/Ord/Hash laws on the real implementation, plus seeded random nested values, sort and HashMap/BTreeMap consistency monitors. The same laws (with partial_cmp == Some(cmp) and agreement with the relations of the values inside) are run on Item (value items, slots by key and by value) and Attr built from every pair of the pool, and on texts reached through ten different buffer histories. Exhaustive over the pool, sampled beyond it.",
     "note": "Trusts the harness's exact rational arithmetic used only to *classify* violations (signatures), not to decide them; laws are decided by the real ==, cmp and hash.",
     "runs": [{"engine": "value"}],
     "assumptions": ["the laws are decided on the values generated; values outside the pool and the seeded random stream are not covered"],
